@@ -465,10 +465,38 @@ def run_cli(spec, ctx, rng, u, reg, root, tmp):
             it = Item()
             it.data, it.label, it.tokens, it.poison, it.group = e.data, e.name, set(), False, None
             pool.append(it)
-        fresh = {}
+        fresh, fresh_sum = {}, {}
         for k, e in enumerate(ents):
             r = forked(lambda: do_op(pool, (k, 1, "decode")), tmp)
             fresh[e.name] = json.loads(r[2]) if isinstance(r, list) and r[0] == "doc" else None
+            r = forked(lambda: do_op(pool, (k, 1, "summary")), tmp)
+            fresh_sum[e.name] = json.loads(r[2]) if isinstance(r, list) and r[0] == "summary" and r[1] else None
+        # the list modes: every entry equals the summary the same file gives in a fresh process, in both orders
+        for rev in (False, True):
+            argv = ["-p", d.root, "-l", "-E"] + (["-r"] if rev else [])
+
+            def job_l():
+                rc, out, err, tb = harness.cli(argv)
+                return {"rc": rc, "out": out, "tb": tb}
+            res = forked(job_l, tmp)
+            ctx.current = {"argv": argv, "files": [e.name for e in ents]}
+            ctx.case(repr(argv) + repr([e.name for e in ents]) + str(spec["rseed"]), True)
+            ctx.count("cli.lists_compared")
+            if "child_error" in res or res.get("tb"):
+                ctx.violation("C19/cli-failed", "peltool -l failed: %s" % (res.get("child_error") or res.get("tb"))[-300:])
+                continue
+            try:
+                got = [dict(v) if isinstance(v, list) else v for _, v in json.loads(res["out"], object_pairs_hook=list)]
+            except ValueError as e:
+                ctx.violation("C19/cli-output", "-l output is not JSON: %s" % e)
+                continue
+            order = sorted(ents, key=lambda e: e.name, reverse=rev)
+            want = [fresh_sum[e.name] for e in order if fresh_sum[e.name] is not None]
+            if got != want:
+                k = next((j for j in range(min(len(got), len(want))) if got[j] != want[j]), min(len(got), len(want)))
+                nm = [e.name for e in order if fresh_sum[e.name] is not None][k] if k < len(want) else "?"
+                ctx.violation("C19/directory-order-dependent-result", "-l%s: entry #%d (%s) differs from the summary the same file "
+                              "gives when decoded alone (%d vs %d entries)" % (" -r" if rev else "", k, nm, len(got), len(want)))
         for rev in (False, True):
             argv = ["-p", d.root, "-a", "-E"] + (["-r"] if rev else [])
 
